@@ -524,7 +524,8 @@ pub fn ctor_checks<const N: usize>(prop: &str, rep: &mut Report) {
         }
         for p in problems {
             let mine = match prop {
-                "C01" | "C12" => matches!(p.kind, PKind::Contents | PKind::Views | PKind::PanicMismatch | PKind::BadEvent | PKind::Leak),
+                "C01" => matches!(p.kind, PKind::Contents | PKind::Views | PKind::PanicMismatch),
+                "C12" => matches!(p.kind, PKind::Contents | PKind::Views | PKind::PanicMismatch | PKind::BadEvent | PKind::Leak),
                 "C03" => matches!(p.kind, PKind::BadEvent | PKind::Leak | PKind::DeadReachable | PKind::Duplicate),
                 "C11" => matches!(p.kind, PKind::PanicMismatch),
                 _ => false,
